@@ -590,10 +590,11 @@ class Filters:
             return f'"{value}"'
 
         next_indent = indent + 4
+        # Wrap the raw text, a break inside an escape sequence ruins the literal
         value = "\n".join(
-            f'{" " * next_indent}"{line}"'
+            f'{" " * next_indent}"{text.escape_string(line)}"'
             for line in textwrap.wrap(
-                value,
+                data,
                 width=max(self.max_line_length - next_indent - 2, 20),  # plus quotes
                 drop_whitespace=False,
                 replace_whitespace=False,
